@@ -195,7 +195,7 @@ impl Check for C02 {
         "C02"
     }
     fn workloads(&mut self, tier: Tier, _seed: u64) -> Vec<(String, u64)> {
-        let k = if tier == Tier::Quick { 1 } else { 20 };
+        let k = if tier == Tier::Quick { 3 } else { 80 };
         vec![
             ("corpus".into(), docs::corpus().len() as u64),
             ("esc-u4".into(), 0x10000 / 64),
